@@ -2,6 +2,8 @@
      rebuild d | U (d*d) | w (d) | O (d*d)
        ->  "unit <r> recon <r> real <r> | <d*d entries of the operator rebuilt by
             generate_system_correlations, in the regenerated operand order>"
+     steps <t1> <t2> <dt>  ->  cmd=.. corr=.. ker=.. switch=..   (float time -> step conversions)
+     last <n> <dt>         ->  last=<n*dt> cmd=.. ker=.. switch=..
    (residuals: C05's IsDiagonalisation ingredients, exact on Gaussian rationals) -/
 import OQuPyVerif.Model.ProtoQI
 import OQuPyVerif.Model.Diag
@@ -33,9 +35,22 @@ def run (ws : List String) : Option String := do
   pure (s!"unit {showRat (unitarityResidual d U)} recon {showRat (reconstructionResidual d U W O)} real {showRat (realityResidual d W)} | "
     ++ " ".intercalate (r.toList.map showQI))
 
+open OQuPyVerif.Generated.CorrBath in
 def step (line : String) : String :=
   match words line with
   | "rebuild" :: rest => (run rest).getD "bad-op"
+  | ["steps", t1, t2, dt] =>
+    -- the float time -> step conversions of generate_system_correlations / correlation / _calc_kernel
+    match parseRat? t1, parseRat? t2, parseRat? dt with
+    | some t1, some t2, some dt =>
+      s!"cmd={corr_mat_dim t2 dt} corr={correlation_corr_mat_dim t2 dt} ker={kernel_ker_dim t2 dt} switch={kernel_switch t1 dt}"
+    | _, _, _ => "bad-op"
+  | ["last", n, dt] =>
+    match parseInt? n, parseRat? dt with
+    | some n, some dt =>
+      let t := occupation_last_time n dt
+      s!"last={showRat t} cmd={corr_mat_dim t dt} ker={kernel_ker_dim t dt} switch={kernel_switch t dt}"
+    | _, _ => "bad-op"
   | _ => "bad-op"
 
 def main : IO Unit := mainLoop step
